@@ -154,8 +154,8 @@ func (state *Runtime) setValue(name string, val reflect.Value) error {
 func (state *Runtime) LetGlobal(name string, val interface{}) {
 	sc := state.scope
 
-	// walk up to top-most valid scope
-	for sc.parent != nil && sc.parent.variables != nil {
+	// walk up to the top-most scope
+	for sc.parent != nil {
 		sc = sc.parent
 	}
 
@@ -256,6 +256,9 @@ func (st *Runtime) recover(err *error) {
 
 func (st *Runtime) executeSet(left Expression, right reflect.Value) {
 	typ := left.Type()
+	if typ == NodeUnderscore {
+		return // the value is discarded
+	}
 	if typ == NodeIdentifier {
 		err := st.setValue(left.(*IdentifierNode).Ident, right)
 		if err != nil {
@@ -291,6 +294,12 @@ RESTART:
 		value = value.FieldByName(fields[lef])
 		if !value.IsValid() {
 			left.errorf("identifier %q is not available in the current scope", fields[lef])
+		}
+		if !value.CanSet() {
+			left.errorf("field %q can't be assigned to (the struct is not addressable or the field is unexported)", fields[lef])
+		}
+		if !right.IsValid() || !right.Type().AssignableTo(value.Type()) {
+			left.errorf("a value of type %s can't be assigned to field %q of type %s", getTypeString(right), fields[lef], value.Type())
 		}
 		value.Set(right)
 	case reflect.Map:
@@ -353,6 +362,9 @@ func (st *Runtime) executeYieldBlock(block *BlockNode, blockParam, yieldParam *B
 			p := &yieldParam.List[i]
 
 			if p.Expression == nil {
+				if i >= len(blockParam.List) {
+					block.errorf("missing value for yield argument '%s'", p.Identifier)
+				}
 				block.errorf("missing name for block parameter '%s'", blockParam.List[i].Identifier)
 			}
 
@@ -533,7 +545,7 @@ func (st *Runtime) executeList(list *ListNode) (returnValue reflect.Value) {
 						}
 					}
 					if valVarSlot < 0 {
-						st.context = rangeValue
+						st.context = indirectEface(rangeValue)
 					}
 					rangeReturn = st.executeList(node.List)
 					indexValue, rangeValue, end = ranger.Range()
@@ -632,7 +644,7 @@ func (st *Runtime) executeInclude(node *IncludeNode) (returnValue reflect.Value)
 		node.errorf("evaluating name of template to include: name is not a valid value")
 	}
 	if name.Type().Implements(stringerType) {
-		templatePath = name.String()
+		templatePath = name.Interface().(fmt.Stringer).String()
 	} else if name.Kind() == reflect.String {
 		templatePath = name.String()
 	} else {
@@ -1046,6 +1058,15 @@ func (st *Runtime) evalMultiplicativeExpression(node *MultiplicativeExprNode) re
 			node.Left.errorf("a non numeric value in multiplicative expression")
 		}
 	case itemMod:
+		if isInt(kind) || isFloat(kind) {
+			if toInt(right) == 0 {
+				node.Right.errorf("modulo by zero")
+			}
+		} else if isUint(kind) {
+			if toUint(right) == 0 {
+				node.Right.errorf("modulo by zero")
+			}
+		}
 		if isInt(kind) {
 			left = reflect.ValueOf(left.Int() % toInt(right))
 		} else if isFloat(kind) {
@@ -1223,8 +1244,12 @@ func (st *Runtime) evalPipeCallExpression(baseExpr reflect.Value, args CallArgs,
 	if !baseExpr.IsValid() {
 		return reflect.Value{}, errors.New("base of call expression is invalid value")
 	}
+	if baseExpr.Kind() == reflect.Func && baseExpr.IsNil() {
+		return reflect.Value{}, errors.New("base of call expression is a nil function")
+	}
 	if funcType.AssignableTo(baseExpr.Type()) {
-		return baseExpr.Interface().(Func)(Arguments{runtime: st, args: args, pipedVal: pipedArg}), nil
+		// (also an unnamed func(Arguments) reflect.Value, which is assignable to Func but is not a Func)
+		return baseExpr.Convert(funcType).Interface().(Func)(Arguments{runtime: st, args: args, pipedVal: pipedArg}), nil
 	}
 
 	argValues, err := st.evaluateArgs(baseExpr.Type(), args, pipedArg)
@@ -1253,6 +1278,9 @@ func (st *Runtime) evalCommandExpression(node *CommandNode) (reflect.Value, bool
 				node.BaseExpr.error(err)
 			}
 			return ret, false
+		}
+		if len(node.Exprs) == 0 {
+			node.BaseExpr.errorf("command %q is called but is %s, not a function", node.BaseExpr, term.Type())
 		}
 		node.Exprs[0].errorf("command %q has arguments but is %s, not a function", node.Exprs[0], term.Type())
 	}
@@ -1456,6 +1484,10 @@ func checkEquality(v1, v2 reflect.Value) bool {
 	}
 
 	kind := v1.Kind()
+	if (isInt(kind) || isUint(kind)) && isFloat(v2.Kind()) {
+		// a floating-point operand makes the comparison floating-point (2 == 2.5 is false)
+		return toFloat(v1) == v2.Float()
+	}
 	if isInt(kind) {
 		return v1.Int() == toInt(v2)
 	}
@@ -1652,6 +1684,12 @@ func resolveIndex(v, index reflect.Value, indexAsStr string) (reflect.Value, err
 			ptr = ptr.Addr()
 		}
 		if method := ptr.MethodByName(indexAsStr); method.IsValid() {
+			if isNil && v.Kind() == reflect.Ptr {
+				if _, onValue := v.Type().Elem().MethodByName(indexAsStr); onValue {
+					// the method has a value receiver: calling it would dereference the nil pointer
+					return reflect.Value{}, fmt.Errorf("nil pointer evaluating %s.%s", v.Type(), indexAsStr)
+				}
+			}
 			return method, nil
 		}
 	}
